@@ -66,7 +66,11 @@ func c17(c *Sexp) *Sexp {
 			}
 			keep[v] = true
 		}
-		return c17greedy(r, t, keep)
+		stop := -1
+		if c.Get("stop") != nil {
+			stop = c.Int("stop")
+		}
+		return c17greedy(r, t, keep, stop)
 	}
 	if c.Get("at") != nil {
 		// a second enumeration with the SAME rearranger value is started from inside the callback
@@ -288,7 +292,9 @@ func c17par(r *tree.NNIRearranger, ts *Sexp) *Sexp {
 // c17greedy: the callback KEEPS the proposals whose rank is in keep (Apply, no Undo) and lets the
 // enumeration continue; every other proposal is applied, dumped and undone (dump again).
 // Every visit: ((idx i) (kept T|F) (err e) (tree T) (audit ..) (nw s) [(utree T) (uaudit ..) (unw s)]).
-func c17greedy(r *tree.NNIRearranger, t *tree.Tree, keep map[int]bool) (obs *Sexp) {
+// stop >= 0: the callback returns false after proposal number stop (kept or undone); calls made by
+// the generator after that are only counted ((after k)), the callback answers false again.
+func c17greedy(r *tree.NNIRearranger, t *tree.Tree, keep map[int]bool, stop int) (obs *Sexp) {
 	defer func() {
 		if p := recover(); p != nil {
 			obs = L(KV("panic", A(c17panicStr(p))))
@@ -301,7 +307,13 @@ func c17greedy(r *tree.NNIRearranger, t *tree.Tree, keep map[int]bool) (obs *Sex
 	visits := L()
 	var operr error
 	n := 0
+	stopped := false
+	after := 0
 	r.Rearrange(t, func(re tree.Rearrangement) bool {
+		if stopped {
+			after++
+			return false
+		}
 		idx := n
 		n++
 		e := re.Apply()
@@ -324,10 +336,14 @@ func c17greedy(r *tree.NNIRearranger, t *tree.Tree, keep map[int]bool) (obs *Sex
 			operr = e
 			return false
 		}
+		if idx == stop {
+			stopped = true
+			return false
+		}
 		return true
 	})
 	final, faudit, nwf, _ := c17dump(t)
-	return L(KV("err", A(errStr(operr))), KV("n", I(n)), KV("orig", orig), KV("nw0", A(nw0)),
+	return L(KV("err", A(errStr(operr))), KV("n", I(n)), KV("after", I(after)), KV("orig", orig), KV("nw0", A(nw0)),
 		KV("visits", visits), KV("final", final), KV("audit", faudit), KV("nwf", A(nwf)))
 }
 
